@@ -89,6 +89,7 @@ class HarnessError(Exception):
 # parallel map (fork AFTER the heavy import; never fork per execution)
 # ----------------------------------------------------------------------------------------------
 _WORK = {}
+_KNOWN_FOR = {}
 FAILFAST = int(os.environ.get("VERIF_FAILFAST", "150") or 150)
 
 
@@ -110,6 +111,9 @@ def pmap(key, fn, items, nproc=None, chunks=1):
     """Run fn(item) -> Result for every item on forked workers; merge results deterministically."""
     nproc = nproc or NPROC
     _WORK[key] = (fn, items)
+    pid_ = key.split(".")[0]
+    if pid_ not in _KNOWN_FOR:
+        _KNOWN_FOR[pid_] = load_known(pid_)
     total = Result()
     if not items:
         return total
@@ -126,7 +130,7 @@ def pmap(key, fn, items, nproc=None, chunks=1):
     try:
         for r in pool.map(_worker, [(key, i) for i in range(len(items))], chunksize=chunks):
             total.merge(r)
-            if len(total.fails) >= FAILFAST:
+            if len(total.fails) >= FAILFAST and sum(1 for f in total.fails if match_known(_KNOWN_FOR.get(key.split(".")[0], []), f) is None) >= FAILFAST:
                 # plenty of counterexamples: the verdict is decided; the remaining units are not explored (evidence says so)
                 total.count("units_skipped_after_%d_failures" % FAILFAST)
                 total.counters["capped"] = 1
